@@ -3,6 +3,7 @@ package props
 // C14 - casting changes only leaf types, predictably, and never yields NaN or Inf.
 
 import (
+	"bytes"
 	"math"
 	"reflect"
 	"strings"
@@ -137,6 +138,18 @@ func checkC14(c CaseC14, info *Info) *Failure {
 	k, v := refDecode(c.Doc, uo)
 	if !valEqual(map[string]interface{}(u), map[string]interface{}{k: v}) {
 		return failf("uncast-map-mismatch", "doc %q\n got  %#v\n want %#v", doc, u, map[string]interface{}{k: v})
+	}
+	// the wrappers that return the cast Map itself
+	for name, f := range map[string]func() (map[string]interface{}, error){
+		"x2j-wrapper.DocToMap":     func() (map[string]interface{}, error) { return x2jw.DocToMap(string(doc), true) },
+		"x2j-wrapper.ByteDocToMap": func() (map[string]interface{}, error) { return x2jw.ByteDocToMap(doc, true) },
+		"x2j-wrapper.ToMap":        func() (map[string]interface{}, error) { return x2jw.ToMap(bytes.NewReader(doc), true) },
+		"NewMapXmlReader":          func() (map[string]interface{}, error) { return mxj.NewMapXmlReader(bytes.NewReader(doc), true) },
+	} {
+		wm, werr := f()
+		if werr != nil || !valEqual(wm, map[string]interface{}(cm)) {
+			return failf("wrapper-mismatch", "doc %q opts %+v: %s(recast) = %#v (%v), NewMapXml(doc,true) = %#v", doc, c.Opts, name, wm, werr, cm)
+		}
 	}
 	if !c.Opts.CastNanInf {
 		jb, jerr := cm.Json()
